@@ -1323,6 +1323,58 @@ fn next_round_run(a: &[&str]) -> String {
     }
 }
 
+/// nf_vault_lock <op lock|unlock> {<liquid 0|1> <lock count>}x3 <n ids> <ids (0..2)..>
+/// REAL NonFungibleVaultBlueprint::{lock_non_fungibles, unlock_non_fungibles} over the MockApi (balance / locked fields and
+/// the liquid id index are built with real payload types). Prints `ok|err {<liquid> <count>}x3`.
+fn nf_vault_lock(a: &[&str]) -> String {
+    use radix_common::prelude::*;
+    use radix_engine::blueprints::resource::*;
+    use radix_engine_interface::blueprints::resource::*;
+    use radix_engine_interface::types::CollectionDescriptor;
+    let n = |t: &str| -> usize { t.parse().unwrap() };
+    let id = |k: usize| NonFungibleLocalId::integer(k as u64);
+    let mut api = mock_api::MockApi::default();
+    let mut locked: IndexMap<NonFungibleLocalId, usize> = IndexMap::default();
+    let mut liquid_count = 0usize;
+    let coll = NonFungibleVaultCollection::NonFungibleIndex.collection_index();
+    for k in 0..3 {
+        if n(a[1 + 2 * k]) == 1 {
+            liquid_count += 1;
+            api.index.insert(
+                (coll, scrypto_encode(&id(k)).unwrap()),
+                scrypto_encode(&NonFungibleVaultNonFungibleEntryPayload::from_latest_version(())).unwrap(),
+            );
+        }
+        if n(a[2 + 2 * k]) > 0 {
+            locked.insert(id(k), n(a[2 + 2 * k]));
+        }
+    }
+    api.fields.insert(
+        NonFungibleVaultField::Balance.field_index(),
+        scrypto_encode(&NonFungibleVaultBalanceFieldPayload::from_latest_version(LiquidNonFungibleVault { amount: Decimal::from(liquid_count as u64) })).unwrap(),
+    );
+    api.fields.insert(
+        NonFungibleVaultField::LockedResource.field_index(),
+        scrypto_encode(&NonFungibleVaultLockedResourceFieldPayload::from_latest_version(LockedNonFungibleResource { ids: locked })).unwrap(),
+    );
+    let nq = n(a[7]);
+    let ids: IndexSet<NonFungibleLocalId> = (0..nq).map(|j| id(n(a[8 + j]))).collect();
+    let r = if a[0] == "lock" {
+        NonFungibleVaultBlueprint::lock_non_fungibles(&ids, &mut api)
+    } else {
+        NonFungibleVaultBlueprint::unlock_non_fungibles(ids, &mut api)
+    };
+    let lk: NonFungibleVaultLockedResourceFieldPayload =
+        scrypto_decode(&api.fields[&NonFungibleVaultField::LockedResource.field_index()]).unwrap();
+    let lk = lk.fully_update_and_into_latest_version();
+    let mut out = (if r.is_ok() { "ok" } else { "err" }).to_string();
+    for k in 0..3 {
+        let liq = api.index.contains_key(&(coll, scrypto_encode(&id(k)).unwrap()));
+        out += &format!(" {} {}", liq as u8, lk.ids.get(&id(k)).copied().unwrap_or(0));
+    }
+    out
+}
+
 /// authzone_run <kind rule|amount> <rk 0 NF|1 Resource> <rr> <ri> <amount attos> <dcp_some> <dcp> <gck> <gca> <g zone|-1>
 ///              <n zones> { <parent zone|-1> <sim res> <impl res> <impl id> <n proofs> {<res> <amount> <id>}* }*
 /// Zone 0 is the actor's own auth zone. Resources: 0 XRD, 1 ACCOUNT_OWNER_BADGE, 5 PACKAGE_OF_DIRECT_CALLER, 6 GLOBAL_CALLER,
@@ -1556,6 +1608,7 @@ fn run(a: &[&str]) -> String {
             }
         }
         "auth_run" => auth_run(&a[1..]),
+        "nf_vault_lock" => nf_vault_lock(&a[1..]),
         "next_round_run" => next_round_run(&a[1..]),
         "pool2_run" => pool2_run(&a[1..]),
         "pool1_contribute" => pool1_contribute(&a[1..]),
